@@ -3,7 +3,7 @@ PROP = dict(
         props=["Hostd.Props.C10"],
         # n = histories (each: one real host node, 1-5 contracts, 1-3 accounts), len = max RPCs per history (5..len);
         # every v2every-th history runs on the V2 network through the coreutils RHP4 client
-        quick=dict(n=160, len=40, shards=8, timeout=420, extra=dict(v2every="8")),
+        quick=dict(n=112, len=40, shards=8, timeout=420, extra=dict(v2every="8")),
         thorough=dict(n=1760, len=40, shards=16, timeout=1700, extra=dict(v2every="5")),
         nontrivial=r"res=ok", min_ops=5, min_kinds=3,
         shrink_budget=60, replay_timeout=180,
